@@ -106,6 +106,14 @@ REQUIRED_FIELD_KINDS = [
     r"^hmtx:xhmtx\.flags", r"^glyf:.*\.flags$", r"^gvar:.*tupleIndex\.flags", r"^gvar:.*tupleVariationCount\.flags", r"^G(SUB|POS):lookup\.flag",
 ]
 # table kinds ("dir" = container level) in which both derived classes must have been planned with an effect on the bytes and applied
+# content classes of the synthesized inputs (harness report `input_content_classes`: read back from the input bytes by the
+# walk's own charstring interpreter / name table reader): an operator that finds exactly as many operands as the stack of a
+# CFF2 (513) / CFF (48) interpreter holds, one more than that, and long name strings (> 63 bytes as UTF-8) with letters
+# outside ASCII of UTF-8 width 2 and 4 (UTF-16 records) and from Macintosh Roman records; a DICT operator with 513 operands,
+# DICT real numbers of exactly 64 characters (the conversion buffer of allsorts) and of more
+REQUIRED_CONTENT = [("CFF2.max_operands", 513), ("CFF2.max_operands", 514), ("CFF.max_operands", 48), ("CFF.max_operands", 49),
+                    ("CFF2.dict_max_operands", 513), ("CFF2.dict_real_chars", 64), ("CFF2.dict_real_chars", 66),
+                    ("name.long.w2", 1), ("name.long.w4", 1), ("name.long.mac-high", 1)]
 REQUIRED_DER_KINDS = ["dir", "EBLC", "EBDT", "CBLC", "CBDT", "cmap", "kern", "name", "morx", "SVG ", "hhea", "maxp", "fvar", "MVAR"]
 DER = ("der-1", "der-half")
 BITS = tuple("bit%d" % k for k in range(16))
@@ -375,7 +383,7 @@ def run(ctx):
         def sink(tag, payload):
             if tag == "CASE":
                 gen.append(payload)
-            elif tag in ("FILE", "VAL"):
+            elif tag in ("FILE", "VAL", "FILL"):
                 fm.write(payload + "\n")
                 n_mc[0] += 1
         mc = vlib.run_tlc(ctx, "MC_FaultModel", cfg, "mc", workers=4, timeout=900 if ctx.quick else 2400, sink=sink)
@@ -395,6 +403,8 @@ def run(ctx):
     if rep0.get("mismatches"):
         bad = vlib.read_ndjson(rmism)[0]
         raise vlib.ToolError("the harness does not implement FaultModel (%s): %s" % (bad.get("what"), vlib.short(bad, 600)))
+    if not rep0.get("fill_cases"):
+        raise vlib.ToolError("MC_FaultModel printed no buffer-filling (FILL) cases")
 
     outdir = ctx.path("traces")
     rep = vlib.run_harness(binp, ["run", ctx.tier, ctx.seed, cases_path, outdir, 8], timeout=3000 if ctx.quick else 7200)
@@ -535,6 +545,10 @@ def run(ctx):
     for name in rep.get("synthesized_inputs", {}):
         if name not in counters.get("input_names", []):
             missing.append("synthesized input " + name)
+    content = rep.get("input_content_classes", {})
+    for k, v in REQUIRED_CONTENT:
+        if not any(c.get(k) == v and name in counters.get("input_names", []) for name, c in content.items()):
+            missing.append("an input of content class %s = %d" % (k, v))
     missing += [k for k in ("Overwrite", "Truncate", "RemoveTable", "ShrinkLength", "SwapTables") if not counters["faults_per_kind"].get(k)]
     vac = None
     if missing:
